@@ -91,6 +91,11 @@ def main():
             scs.append({'gz': gz, 'steps': [dict(bases[0], target=3, save_freq=1, event={'kind': 'none'}),
                                            dict(bases[0], target=6, save_freq=2, event={'kind': 'kill_fs', 'at': at}),
                                            dict(bases[0], target=6, save_freq=2, event={'kind': 'none'})]})
+    # stop at a trial boundary and restart IN THE SAME PROCESS (save frequency above 1: trials since the last checkpoint are lost and redone)
+    for gz in (False, True):
+        for at in (3, 6, 8):
+            scs.append({'gz': gz, 'steps': [dict(bases[0], target=4, save_freq=3, event={'kind': 'none'}),
+                                           dict(bases[0], target=10, save_freq=3, event={'kind': 'kbd_trial', 'at': at, 'resume_in_process': True})]})
     # smallest targets: a run of ONE trial must leave its trial on disk, and a later run must resume from it
     for gz in (False, True):
         for f in (1, 3):
